@@ -30,7 +30,7 @@ def setup(ctx):
     CTX = ctx
     probes.hook(mbase.model, "nameddata", after=mon_named)
     ctx.require("roundtrip:euler1d", "roundtrip:nozzle", "roundtrip:euler2d", "roundtrip:shallowwater", "roundtrip:convection", "roundtrip:burgers",
-                "vars:euler1d", "vars:nozzle", "vars:euler2d", "vars:shallowwater", "vars:convection")
+                "vars:euler1d", "vars:nozzle", "vars:euler2d", "vars:shallowwater", "vars:convection", "reuse:nozzle", "reuse:euler1d")
 
 
 def teardown(ctx):
@@ -174,3 +174,44 @@ def other_models(ctx, rng, idx):
             got = np.asarray(f.phydata(name), float)
             ctx.true("vars", name == "q" and np.array_equal(got, q) and got.shape == (n,), "vars/%s/%s/not-its-definition" % (mname, name), None, cls="vars:" + mname)
         ctx.nontrivial(mname, q[:3])
+
+
+@group(quick=150, thorough=5000)
+def reuse_model(ctx, rng, idx):
+    """ONE model object discretised on a first mesh, variables read, then discretised on a second mesh with the same number
+    of cells but other cell centres, variables read again (twice): nothing may be remembered from the first mesh"""
+    import flowdyn.modeldisc as md
+    import flowdyn.xnum as xnum
+    kind = ["nozzle", "nozzle", "euler1d"][idx % 3]
+    gam = float(rng.choice([1.4, 5 / 3, 1.3]))
+    n = int(rng.integers(2, 30))
+    if kind == "nozzle":
+        a, b = float(rng.uniform(0.5, 2)), float(rng.uniform(0.2, 0.8))
+        sec = lambda x: a * (1 + b * np.sin(0.9 * x) ** 2 + 0.1 * x)
+        model = euler.nozzle(sec, gamma=gam)
+    else:
+        sec = None
+        model = euler.euler1d(gamma=gam)
+    meshes = [gen.mesh1d(rng, ncell=n) for _ in range(2)] + [gen.mesh1d(rng, ncell=n + 1)]
+    ctx.describe(model=kind, gamma=gam, ncell=n, meshes=[d for _, d in meshes])
+    for which, (mesh, mdesc) in enumerate(meshes):
+        md.fvm(model, mesh, xnum.extrapol1())            # (re)discretise the SAME model object: calls model.initdisc(mesh)
+        nn = mesh.ncell
+        rho, V, p = _euler_states(rng, nn, gam, False)
+        section = sec(mesh.centers()) if sec is not None else None
+        defs, cond = definitions(kind, gam, rho, V, p, section)
+        f = ffield.fdata(model, mesh, model.prim2cons([rho.copy(), V.copy(), p.copy()]))
+        keep = [d.copy() for d in f.data]
+        for rep in range(2):
+            for name in model.list_var():
+                val, scale, conditioned = defs[name]
+                got = np.asarray(f.phydata(name), float)
+                if name == "mach":
+                    got, val = np.abs(got), np.abs(val)
+                if got.shape != (nn,):
+                    ctx.true("reuse-shape", False, "reuse/%s/%s/shape-on-mesh-%d" % (kind, name, which), {"shape": got.shape}, cls="reuse:" + kind)
+                    continue
+                err = np.max(np.abs(got - val) / scale / (cond if conditioned else 1.0))
+                ctx.close("reuse:" + name, err, TOL, "reuse/%s/%s/not-its-definition-after-rediscretisation" % (kind, name), {"mesh number": which, "read": rep, "mesh": mdesc}, cls="reuse:" + kind)
+        ctx.true("reuse-field-untouched", all(np.array_equal(x, y) for x, y in zip(f.data, keep)), "reuse/%s/field-modified-by-reading-variables" % kind, None, cls="reuse:" + kind)
+    ctx.nontrivial("reuse", kind, gam, n, [d for _, d in meshes])
